@@ -56,6 +56,7 @@ struct World {
 	std::unique_ptr<session_pool> pool;
 	storage_ptr inner;
 	std::vector<std::string> log;
+	std::set<std::string> dels;      // keys of exposed-value cookies for which a deletion cookie (Max-Age=0) was emitted in this request
 	std::vector<std::map<std::string,JarEntry> > jars;
 	std::vector<JarEntry> hist;
 	std::map<std::string,int> sidmap;
@@ -113,6 +114,8 @@ private:
 	storage_ptr st_;
 };
 
+static void note_deletion(std::string const &name);
+
 class Jar : public session_interface_cookie_adapter {
 public:
 	Jar(int b) : b_(b) {}
@@ -134,7 +137,7 @@ public:
 		}
 		else
 			e.session = true;
-		if(del) { jar.erase(name); return; }
+		if(del) { note_deletion(name); jar.erase(name); return; }
 		jar[name] = e;
 		if(name == PREFIX) {
 			bool seen = false;
@@ -177,6 +180,12 @@ static std::string render_session_cookie(JarEntry const &e)
 		return "C?";
 	}
 	return "raw:" + hx::hex(v);
+}
+
+static void note_deletion(std::string const &name)
+{
+	std::string pfx = std::string(PREFIX) + "_";
+	if(name.compare(0,pfx.size(),pfx)==0) W->dels.insert(name.substr(pfx.size()));
 }
 
 static std::string render_jar(int b)
@@ -272,10 +281,13 @@ static std::string do_request(int b,std::vector<std::string> const &ops)
 	std::ostringstream out;
 	drop_expired(b);
 	W->log.clear();
+	W->dels.clear();
 	out << "R" << backend_request(b,ops);
 	out << " ops=[";
 	for(size_t i=0;i<W->log.size();i++) { if(i) out << ","; out << W->log[i]; }
-	out << "] jar=[" << render_jar(b) << "] alive=[";
+	out << "] jar=[" << render_jar(b) << "] del=[";
+	{ bool f = true; for(std::set<std::string>::const_iterator p=W->dels.begin();p!=W->dels.end();++p) { if(!f) out << ","; f = false; out << hx::hex(*p); } }
+	out << "] alive=[";
 	bool first = true;
 	for(size_t i=0;i<W->known_ids.size();i++) {
 		time_t t = 0; std::string d;
